@@ -425,6 +425,136 @@ where
             self.sync_group_metadata_from_mls(group_id)?;
         }
 """)]),
+    ("c08-sync-from-stored-epoch", ["C08"], [], [(CORE + "groups.rs", "        stored_group.epoch = mls_group.epoch().as_u64();\n\n        // Update extension data from NostrGroupDataExtension", "        stored_group.epoch = stored_group.epoch + 1;\n\n        // Update extension data from NostrGroupDataExtension")]),
+    ("c08-sync-keeps-relays", ["C08"], [], [(CORE + "groups.rs", """        // Sync relays atomically - replace entire relay set with current extension data
+        self.storage()
+            .replace_group_relays(group_id, group_data.relays)
+            .map_err(|e| Error::Group(e.to_string()))?;
+
+""", "")]),
+    ("c09-memory-snapshot-unfiltered-proposals", ["C09"], [], [(MEM + "lib.rs", """            .filter(|((gid, _), _)| *gid == mls_group_id_bytes)
+            .map(|((_, prop_ref), prop)| (prop_ref.clone(), prop.clone()))""", """            .filter(|((gid, _), _)| !gid.is_empty())
+            .map(|((_, prop_ref), prop)| (prop_ref.clone(), prop.clone()))""")]),
+    ("c09-memory-release-touches-live-state", ["C09"], [], [(MEM + "lib.rs", """        let key = (group_id.clone(), name.to_string());
+        self.group_snapshots.write().remove(&key);
+        Ok(())""", """        let key = (group_id.clone(), name.to_string());
+        self.group_snapshots.write().remove(&key);
+        self.inner.write().group_relays_cache.pop(group_id);
+        Ok(())""")]),
+    ("c10-memory-sort-ascending", ["C10", "C18"], [], [(MEM + "groups.rs", "                        messages.sort_by(|a, b| b.display_order_cmp(a));", "                        messages.sort_by(|a, b| a.display_order_cmp(b));")]),
+    ("c10-sqlite-last-message-oldest", ["C10", "C18"], [], [(SQL + "groups.rs", """                    "SELECT * FROM messages WHERE mls_group_id = ? \\
+                     ORDER BY created_at DESC, processed_at DESC, id DESC \\
+                     LIMIT 1\"""", """                    "SELECT * FROM messages WHERE mls_group_id = ? \\
+                     ORDER BY created_at ASC, processed_at DESC, id DESC \\
+                     LIMIT 1\"""")]),
+    ("c10-sqlite-messages-unscoped", ["C10", "C18"], [], [(SQL + "groups.rs", """                    "SELECT * FROM messages WHERE mls_group_id = ? \\
+                     ORDER BY processed_at DESC, created_at DESC, id DESC \\
+                     LIMIT ? OFFSET ?\"""", """                    "SELECT * FROM messages WHERE mls_group_id IS NOT ? \\
+                     ORDER BY processed_at DESC, created_at DESC, id DESC \\
+                     LIMIT ? OFFSET ?\"""")]),
+    ("c10-memory-limit-not-validated", ["C10", "C18"], [], [(MEM + "groups.rs", """        if !(1..=MAX_MESSAGE_LIMIT).contains(&limit) {
+            return Err(GroupError::InvalidParameters(format!(
+                "Limit must be between 1 and {}, got {}",
+                MAX_MESSAGE_LIMIT, limit
+            )));
+        }
+""", "")]),
+    ("c12-relays-release-on-error", ["C12"], [], [(SQL + "groups.rs", """                    let _ = conn.execute_batch(
+                        "ROLLBACK TO SAVEPOINT mdk_replace_group_relays; \\
+                         RELEASE SAVEPOINT mdk_replace_group_relays;",
+                    );""", """                    let _ = conn.execute_batch("RELEASE SAVEPOINT mdk_replace_group_relays;");""")]),
+    ("c12-relays-delete-before-savepoint", ["C12"], [], [(SQL + "groups.rs", """            conn.execute_batch("SAVEPOINT mdk_replace_group_relays")
+                .map_err(into_group_err)?;
+
+            let result: Result<(), GroupError> = (|| {
+                conn.execute(
+                    "DELETE FROM group_relays WHERE mls_group_id = ?",
+                    params![group_id.as_slice()],
+                )
+                .map_err(into_group_err)?;
+""", """            conn.execute(
+                "DELETE FROM group_relays WHERE mls_group_id = ?",
+                params![group_id.as_slice()],
+            )
+            .map_err(into_group_err)?;
+            conn.execute_batch("SAVEPOINT mdk_replace_group_relays")
+                .map_err(into_group_err)?;
+
+            let result: Result<(), GroupError> = (|| {
+""")]),
+    ("c12-snapshot-commit-skipped-when-empty", ["C12"], [], [(SQL + "lib.rs", """        match result {
+            Ok(()) => {
+                conn.execute("COMMIT", [])
+                    .map_err(|e| Error::Database(e.to_string()))?;
+                Ok(())
+            }
+            Err(e) => {
+                let _ = conn.execute("ROLLBACK", []);
+                Err(e)
+            }
+        }
+    }
+
+    /// Snapshot helper: openmls_group_data table""", """        match result {
+            Ok(()) => {
+                if !name.is_empty() {
+                    conn.execute("COMMIT", [])
+                        .map_err(|e| Error::Database(e.to_string()))?;
+                }
+                Ok(())
+            }
+            Err(e) => {
+                let _ = conn.execute("ROLLBACK", []);
+                Err(e)
+            }
+        }
+    }
+
+    /// Snapshot helper: openmls_group_data table""")]),
+    ("c13-keyring-generate-without-recheck", ["C13"], [], [(SQL + "keyring.rs", """    // Double-check after acquiring lock (another thread may have created it)
+    if let Some(config) = get_db_key(service_id, db_key_id)? {
+        return Ok(config);
+    }
+""", "")]),
+    ("c13-existing-file-generates-key", ["C13"], [], [(SQL + "lib.rs", """                match keyring::get_db_key(service_id, db_key_id)? {
+                    Some(config) => {""", """                match Some(keyring::get_or_create_db_key(service_id, db_key_id)?) {
+                    Some(config) => {""")]),
+    ("c13-with-key-accepts-plain-file", ["C13"], [], [(SQL + "lib.rs", """        if file_path.exists() && !encryption::is_database_encrypted(file_path)? {
+            return Err(Error::UnencryptedDatabaseWithEncryption);
+        }
+
+        Self::new_internal(file_path, Some(config))""", """        Self::new_internal(file_path, Some(config))""")]),
+    ("c13-no-validating-read", ["C13"], [], [(SQL + "encryption.rs", """    validate_encryption_key(conn)?;
+
+    Ok(())""", """    let _ = validate_encryption_key(conn);
+
+    Ok(())""")]),
+    ("c13-sidecars-not-restricted", ["C13"], [], [(SQL + "lib.rs", """                if sidecar.exists() {
+                    set_secure_file_permissions(&sidecar)?;
+                }""", """                let _ = sidecar.exists();""")]),
+    ("c13-directory-mode-755", ["C13"], [], [(SQL + "permissions.rs", "    let perms = std::fs::Permissions::from_mode(0o700);", "    let perms = std::fs::Permissions::from_mode(0o755);")]),
+    ("c16-accept-stores-pending", ["C16"], [], [(CORE + "welcomes.rs", """            // Update group state
+            group.state = group_types::GroupState::Active;""", """            // Update group state
+            group.state = group_types::GroupState::Pending;""")]),
+    ("c16-decline-stores-pending", ["C16"], [], [(CORE + "welcomes.rs", "            group.state = group_types::GroupState::Inactive;\n            self.storage()\n                .save_group(group)", "            group.state = group_types::GroupState::Pending;\n            self.storage()\n                .save_group(group)")]),
+    ("c18-pointer-updates-two-fields", ["C18"], [], [(TR + "groups/types.rs", """            self.last_message_processed_at = Some(message.processed_at);
+""", "")]),
+    ("c18-pointer-not-saved", ["C18"], [], [(CORE + "messages/application.rs", """        if group.update_last_message_if_newer(&message) {
+            self.save_group_record(group)?;
+        }""", """        let _ = group.update_last_message_if_newer(&message);""")]),
+    ("c20-retention-not-from-config", ["C20"], [], [(CORE + "lib.rs", """        let epoch_snapshots = Arc::new(EpochSnapshotManager::new(
+            self.config.epoch_snapshot_retention,
+        ));""", """        let epoch_snapshots = Arc::new(EpochSnapshotManager::new(64));""")]),
+    ("c20-queue-cut-even-if-rollback-fails", ["C20"], [], [(CORE + "epoch_snapshots.rs", """                storage
+                    .rollback_group_to_snapshot(group_id, &snapshot.snapshot_name)
+                    .map_err(Error::Storage)?;
+""", """                let rolled_back = storage
+                    .rollback_group_to_snapshot(group_id, &snapshot.snapshot_name)
+                    .map_err(Error::Storage);
+                if rolled_back.is_err() {
+                    tracing::warn!("storage rollback failed");
+                }
+""")]),
     ("c20-no-prune-after-hydration", ["C20"], [], [(CORE + "epoch_snapshots.rs", """        // Enforce retention limit after hydration
         while queue.len() > self.retention_count {
             if let Some(old_snap) = queue.pop_front() {
